@@ -216,7 +216,9 @@ pub fn profile(prop: &str) -> Profile {
         "C06" => {
             p.prop = "C06";
             p.w[W_CLEAR] = 2;
-            p.w[W_REWIND] = 0;
+            // rewind: the caller gives up what lies above the target - no obligations inside the call, but the
+            // cursor of every crash image has to be in range
+            p.w[W_REWIND] = 2;
             p.w[W_CLONE] = 0;
             p.w[W_DROPARENA] = 0;
             // truncate (unsync) and close + reopen: in a copy-on-write / read-only session the crash image is the
@@ -307,7 +309,7 @@ pub fn gen_cfg(rng: &mut Rng, p: &Profile) -> Cfg {
     }
     // a file-backed arena always uses the unified layout, whatever `with_unify` says: both values are generated.
     // Single-client file histories also map at page-multiple offsets inside the file.
-    if c.backend == Backend::File && matches!(p.prop, "C01" | "C03" | "C05" | "C08" | "C10" | "C13" | "C17" | "C18" | "C20") {
+    if c.backend == Backend::File && matches!(p.prop, "C01" | "C03" | "C04" | "C05" | "C08" | "C10" | "C13" | "C16" | "C17" | "C18" | "C20") {
         c.offset = *rng.pick(&[0u64, 0, 0, 4096, 8192]);
     }
     c
